@@ -10,7 +10,7 @@
    argument binding (None = TypeError), [meth39 e c] = what the translated body
    of method e applies for the call c, [dir39 n c] = what ops.n(c) binds. *)
 From Coq Require Import List String Bool.
-From RxVerif Require Import Ops.Fluent Ops.FluentFacts Gen.FluentTable Ops.FluentProof.
+From RxVerif Require Import Ops.Fluent Ops.FluentFacts Gen.FluentTable Ops.FluentProof Ops.FluentProof2.
 Import ListNotations.
 Open Scope string_scope.
 
@@ -78,6 +78,44 @@ Theorem C39_tables_wellformed :
 Proof. exact (conj table_names_unique table_every_method_has_operator). Qed.
 Print Assumptions C39_tables_wellformed.
 
+(* ---- "behaves exactly like", with the trust base explicit ---------------------------
+   ASSUMPTION made a parameter: what an operator call produces is a function [op_sem] of the
+   canonical operator name, the bound arguments and the source only (and X.pipe(f) = f(X)).  For
+   EVERY type of observables O and EVERY such op_sem: for each accepted call, the method applied
+   to a source x and the piped same-named operator give the same observable, and neither is a
+   TypeError *)
+Theorem C39_behaves :
+  forall (O : Type) (op_sem : string -> benv -> O -> O),
+  forall e, In e fluent_table -> ~ In (ename e) known_mismatch ->
+  forall c b x, bind (esig e) c = Some b ->
+  meth_sem O op_sem e c x = pipe_sem O op_sem (ename e) c x /\ meth_sem O op_sem e c x <> None.
+Proof. exact behaves. Qed.
+Print Assumptions C39_behaves.
+
+(* ... outside the four narrower methods also on the rejected calls (both None) *)
+Theorem C39_behaves_exact :
+  forall (O : Type) (op_sem : string -> benv -> O -> O),
+  forall e, In e fluent_table -> ~ In (ename e) known_mismatch -> ~ In (ename e) narrower_than_operator ->
+  forall c x, meth_sem O op_sem e c x = pipe_sem O op_sem (ename e) c x.
+Proof. exact behaves_exact. Qed.
+Print Assumptions C39_behaves_exact.
+
+(* ... and for the four parameter-name-only mismatches on calls without keywords *)
+Theorem C39_behaves_positional :
+  forall (O : Type) (op_sem : string -> benv -> O -> O),
+  forall e, In e fluent_table -> In (ename e) keyword_name_only ->
+  forall c b x, ckws c = [] -> bind (esig e) c = Some b ->
+  meth_sem O op_sem e c x = pipe_sem O op_sem (ename e) c x /\ meth_sem O op_sem e c x <> None.
+Proof. exact behaves_positional. Qed.
+Print Assumptions C39_behaves_positional.
+
+(* the converse gap (not required by the property): exactly these operators of
+   reactivex.operators have no fluent method *)
+Theorem C39_operators_without_method :
+  map oname (filter (fun o => negb (mem (oname o) (map ename fluent_table))) op_table) = ["tap"; "zip_with_list"].
+Proof. exact table_no_method. Qed.
+Print Assumptions C39_operators_without_method.
+
 (* ---- non-vacuity ---------------------------------------------------------------- *)
 (* source.replay(5, scheduler=s, mapper=None)  ==  ops.replay(5, scheduler=s, mapper=None)(source) *)
 Example C39_witness_replay :
@@ -106,3 +144,14 @@ Proof. eexists. split; [vm_compute; reflexivity|]. split; vm_compute; reflexivit
 
 Example C39_table_nonempty : 100 <= List.length fluent_table /\ 100 <= List.length op_table.
 Proof. split; vm_compute; repeat constructor. Qed.
+
+(* C39_behaves at a concrete semantics (the observable = the log of what was applied) *)
+Example C39_witness_behaves :
+  let sem := fun (n : string) (b : benv) (x : list (string * benv)) => (n, b) :: x in
+  exists e, find_entry fluent_table "replay" = Some e /\
+  meth_sem _ sem e (mkcall [VOpaque 0] [("scheduler", VOpaque 1)]) []
+  = Some [("replay", mkenv [("buffer_size", VOpaque 0); ("window", VConst "None");
+                            ("mapper", VConst "None"); ("scheduler", VOpaque 1)] [])]
+  /\ pipe_sem _ sem "replay" (mkcall [VOpaque 0] [("scheduler", VOpaque 1)]) []
+     = meth_sem _ sem e (mkcall [VOpaque 0] [("scheduler", VOpaque 1)]) [].
+Proof. eexists. split; [vm_compute; reflexivity|]. split; vm_compute; reflexivity. Qed.
